@@ -7,6 +7,8 @@ interpreted against a real ``wntr.network.WaterNetworkModel()`` and against the 
 ``Ref`` below (written from the property statement, it never looks at the WNTR objects).  After EVERY
 executed step all views of the real model are compared with the reference model.
 """
+import json
+
 from hypothesis import strategies as st
 
 from ..outcome import fail, passed, exc_bucket, canon
@@ -21,7 +23,7 @@ RULE = ('A case is a history of <= 30 (thorough: 60) operations [op, int args...
         'pattern / volume curve), add_pipe/pump(HEAD curve | POWER, optional speed pattern)/valve(PRV..GPV), '
         'add_pattern/curve/source/control(Control | Rule over node and link conditions), remove_node/link '
         '(plain | with_control | force), remove_pattern/curve/source/control, set start/end node, '
-        'speed_pattern_name, head_pattern_name, vol_curve_name, pump_curve_name, headloss_curve_name, add_demand, the pattern of a demand entry through TimeSeries.pattern_name. '
+        'speed_pattern_name, head_pattern_name, vol_curve_name, pump_curve_name, headloss_curve_name, add_demand, the pattern of a demand entry through TimeSeries.pattern_name; reload = the history continues on from_dict(to_dict(wn)) (only while the model has no controls). '
         'Indices are taken modulo the number of existing candidates; names are prefix + smallest free number, so '
         'names are re-used after removals. Enumerated part: 60 hand-built histories covering each element kind x '
         'reference kind x (remove in use / remove user / remove unused). After every executed step all views are '
@@ -708,6 +710,19 @@ def check(case):
     if bad:
         return fail('empty_model/view:' + bad[0], bad[1], tags)
     for i, op in enumerate(ops):
+        if op[0] == 'reload':
+            # 'starting from any model': the history continues on the model rebuilt from its own dictionary (JSON)
+            if not getattr(ref, 'controls', None):       # (rule texts are C13's business)
+                try:
+                    wn = wntr.network.from_dict(json.loads(json.dumps(wntr.network.to_dict(wn))))
+                except Exception as e:
+                    return fail(exc_bucket(e, 'reload/raises'), 'from_dict(to_dict(wn)) raised %r after %s' % (e, trace[-6:]), tags)
+                tags.add('op:reload')
+                trace.append('reload')
+                bad = views(wn, ref)
+                if bad:
+                    return fail('reload/view:%s' % bad[0], '%s\n  after from_dict(to_dict(wn)), history %s' % (bad[1], trace[-6:]), tags)
+            continue
         step = resolve(op, ref, wn)
         if step is None:
             skipped += 1
@@ -801,7 +816,7 @@ OPS = [
     ('remove_source', 1, 2), ('remove_control', 1, 1),
     ('set_start', 2, 2), ('set_end', 2, 2), ('reverse_link', 1, 2), ('set_speed_pattern', 2, 2), ('set_head_pattern', 2, 2),
     ('set_vol_curve', 2, 2), ('set_pump_curve', 2, 1), ('set_headloss_curve', 2, 1), ('add_demand', 2, 2),
-    ('set_demand_pattern', 3, 2),
+    ('set_demand_pattern', 3, 2), ('reload', 0, 2),
 ]
 
 
